@@ -8,8 +8,29 @@ T2: the real HttpLayer driven sans-io over request histories (destinations x sch
 from pyvc.api import *
 from props.prelude import *
 
-CLAIM = "proof"
-ASSUMPTIONS = []
+CLAIM = "other"
+EXPLANATION = ("T1 proves, for every destination spec / connection spec / state / error / ALPN (all symbolic): connection_spec_matches is "
+               "true exactly when address, tls, via and transport are equal on a Server; Server.__setattr__ rejects a changed address/via "
+               "exactly when the state is OPEN and leaves the attribute unchanged; get_connection (all three modes, pending or settled "
+               "candidate, context connection registered or not) either (a) replies with a registered connection that equals the "
+               "request's spec in all four components, is OPEN, has no error and is not pending, or (b) refuses with the error of a "
+               "matching failed connection, or (c) joins the waiters of a matching pending connection (invariant W preserved), or (d) "
+               "registers exactly one new connection whose four components equal the request's, with TLS/QUIC/upstream-proxy layers "
+               "exactly as the spec demands (invariants W and R established); register_connection answers exactly the waiting commands, "
+               "once, in order, with that connection or the error (and re-dispatches without reuse in the HTTP/2->HTTP/1 case); "
+               "make_server_connection asks for (request.host, request.port), scheme == https, the flow connection's via/transport. "
+               "The registry in these proofs has a bounded number of entries (client + 2 upstream entries, each fully symbolic) and the "
+               "step from per-call postconditions to whole histories (induction over W and R; routing of SendHttp by connection is C05's "
+               "event_to_child contract) is argued, not machine-checked — hence 'other'. T2 runs the real HttpLayer over request "
+               "histories and checks every serialised request head. One known finding (KF-C08-1) is excluded by its class predicate.")
+ASSUMPTIONS = [
+    "bounded registry: HttpLayer.connections holds the client, one candidate upstream entry c1 and optionally the context's server (each with symbolic spec/state/error/ALPN); waiting lists have <= 3 commands",
+    "child layers constructed by get_connection are abstracted: ServerTLSLayer/ServerQuicLayer mark their connection tls=True (TLSLayer.__init__/QuicLayer.__init__ do `conn.tls = True`), HttpUpstreamProxy.make and HttpClient are tagged objects; HttpLayer.event_to_child is a ghost trace item (its routing contract is in C05)",
+    "'open' in the statement is read as ConnectionState.OPEN (the `connected` property that reuse is conditioned on); half-closed connections are not reused and are not guarded by __setattr__",
+    "the environment does not change address/tls/via/transport of a *pending* connection between get_connection and register_connection (an addon redirecting a connection in server_connect redirects all requests waiting for it - by design)",
+    "tls is compared as the boolean flag, not the verified peer identity (C15)",
+    "T2: TLS handshakes are replaced by a pass-through tunnel layer that sets conn.tls / conn.alpn (or fails and sets conn.error like TLSLayer.on_handshake_error)",
+]
 
 
 H = "mitmproxy.proxy.layers.http"
@@ -26,9 +47,9 @@ def tr(vc, x):
 
 def sym_spec(vc, tag):
     """a symbolic destination spec: (address (host, port), tls, via None | (scheme, (host, port)), transport tcp|udp)"""
-    addr = (vc.sym_str(tag + "_host"), vc.sym_int(tag + "_port", lo=0, hi=65535))
+    addr = vc.lift((vc.sym_str(tag + "_host"), vc.sym_int(tag + "_port", lo=0, hi=65535)))
     tls = vc.sym_bool(tag + "_tls")
-    via = vc.opt(tag + "_via", (vc.sym_str(tag + "_via_scheme"), (vc.sym_str(tag + "_via_host"), vc.sym_int(tag + "_via_port", lo=0, hi=65535))))
+    via = vc.opt(tag + "_via", vc.lift((vc.sym_str(tag + "_via_scheme"), (vc.sym_str(tag + "_via_host"), vc.sym_int(tag + "_via_port", lo=0, hi=65535)))))
     tp = If(vc.sym_bool(tag + "_udp"), "udp", "tcp")
     return addr, tls, via, tp
 
@@ -104,6 +125,374 @@ def s_setattr(vc):
         vc.ensure("rejected_with_runtime_error", issubclass(out.raised_type(), RuntimeError))
         vc.ensure("rejected_leaves_attribute_unchanged", vc.eq(cur, old))
     vc.ensure("frame.state_untouched", vc.eq(srv.state, st))
+
+
+def fields_of(vc, o):
+    return o.fields if vc.mode == "sym" else o.__dict__
+
+
+def is_ghost(c, tag):
+    if isinstance(c, STuple):
+        return c.items[0].concrete() == tag
+    return isinstance(c, tuple) and len(c) > 0 and c[0] == tag
+
+
+def mk_defaultdict(vc, items):
+    import collections
+    if vc.mode == "sym":
+        from pyvc.libx_http2 import SDefaultDict
+        return SDefaultDict(SConst(list), [(lift(k), lift(v)) for k, v in items])
+    return collections.defaultdict(list, items)
+
+
+def dict_items(vc, d):
+    return list(d.items) if vc.mode == "sym" else list(d.items())
+
+
+def dict_lookup(vc, d, key):
+    """identity look-up (connections and commands hash by identity / unique id)"""
+    for k, v in dict_items(vc, d):
+        if k is key:
+            return v
+    return None
+
+
+def list_items(vc, l):
+    return list(l.items) if vc.mode == "sym" else list(l)
+
+
+def mk_plain_layer(vc, ref, ctx, **fields):
+    return vc.new(ref, context=ctx, debug=None, _paused=None, _paused_event_queue=vc.deque([]), **fields)
+
+
+def mk_http_layer(vc, mode, client, ctx_server, conns, waiting, sources):
+    """HttpLayer pre-state. conns: [(connection, handler layer)], waiting: [(connection, [commands])], sources: [(command, stream)]"""
+    from mitmproxy.proxy.layers.http import HTTPMode
+    opts = mk_options(vc, proxy_debug=False)
+    ctx = mk_context(vc, client, ctx_server, opts)
+    return vc.new(HL, context=ctx, debug=None, _paused=None, _paused_event_queue=vc.deque([]), mode=mode,
+                  connections=vc.dict(conns), waiting_for_establishment=mk_defaultdict(vc, [(c, vc.list(w)) for c, w in waiting]),
+                  command_sources=vc.dict(sources), streams=vc.dict([]))
+
+
+def to_child_summary(vc, self_, child, event):
+    return vc.gen([vc.ghost("to_child", child, event)])
+
+
+def _cls(ref):
+    from pyvc.vc import resolve_ref
+    return resolve_ref(ref)[2]
+
+
+def sym_conn(vc, tag, spec=None, state=None):
+    """an upstream connection with symbolic spec, state, error and ALPN"""
+    spec = spec or sym_spec(vc, tag)
+    return mk_server(vc, tag, address=spec[0], tls=spec[1], via=spec[2], transport_protocol=spec[3],
+                     state=state if state is not None else conn_state(vc, tag + "_state"),
+                     error=vc.opt(tag + "_error", vc.sym_str(tag + "_error_v")),
+                     alpn=vc.opt(tag + "_alpn", If(vc.sym_bool(tag + "_alpn_h2"), b"h2", b"http/1.1"))), spec
+
+
+def install_constructor_summaries(vc, made):
+    """Child layers built by get_connection are abstracted to tagged objects; what each constructor is *trusted* to do to
+    the connection (TLS layers mark their connection as TLS) is stated here and listed in ASSUMPTIONS."""
+    TLSC, QUICC = _cls("mitmproxy.proxy.layers.tls:ServerTLSLayer"), _cls("mitmproxy.proxy.layers.quic:ServerQuicLayer")
+    UPC, HCC = _cls("mitmproxy.proxy.layers.http._upstream_proxy:HttpUpstreamProxy"), _cls(H + ":HttpClient")
+
+    def tls_layer(v, context, conn=None):
+        c = conn if conn is not None and not isnone(conn) else context.server
+        c.tls = True
+        l = mk_plain_layer(v, TLSC, context, conn=c, tunnel_connection=c, child_layer=None)
+        made.append(("tls", l, c))
+        return l
+
+    def quic_layer(v, context, conn=None, time=None):
+        c = conn if conn is not None and not isnone(conn) else context.server
+        c.tls = True
+        l = mk_plain_layer(v, QUICC, context, conn=c, tunnel_connection=c, child_layer=None)
+        made.append(("quic", l, c))
+        return l
+
+    def upstream(v, *a):
+        context, send_connect = a[-2], a[-1]  # classmethod: the symbolic call passes cls first
+        l = mk_plain_layer(v, UPC, context, conn=context.server, send_connect=send_connect, child_layer=None)
+        made.append(("upstream", l, context.server, send_connect))
+        st = v.construct("mitmproxy.proxy.tunnel:LayerStack")
+        (st._stack.items if v.mode == "sym" else st._stack).append(l)
+        return st
+
+    def http_client(v, context):
+        l = mk_plain_layer(v, HCC, context)
+        made.append(("httpclient", l, context.server))
+        return l
+
+    vc.summary("mitmproxy.proxy.layers.tls:ServerTLSLayer", tls_layer)
+    vc.summary("mitmproxy.proxy.layers.quic:ServerQuicLayer", quic_layer)  # name used by the native patch (package attribute)
+    vc.summary("mitmproxy.proxy.layers.quic._stream_layers:ServerQuicLayer", quic_layer)  # defining module (symbolic dispatch)
+    vc.summary("mitmproxy.proxy.layers.http._upstream_proxy:HttpUpstreamProxy.make", upstream)
+    vc.summary(H + ":HttpClient", http_client)
+
+
+def _get_connection_contract(vc, mode_name, c1_waiting, ctx_registered, c1_tunnel=False):
+    from mitmproxy.connection import ConnectionState as S
+    from mitmproxy.proxy.layers.http import HTTPMode
+    mode = HTTPMode[mode_name]
+    client = mk_client(vc, alpn=vc.opt("client_alpn", If(vc.sym_bool("client_h2"), b"h2", b"http/1.1")), sni="client.sni.example")
+    es = sym_spec(vc, "e")
+    ev = mk_cmd(vc, es)
+    c1, s1 = sym_conn(vc, "c1", state=S.CLOSED if c1_waiting else None)
+    xs_conn, xs = sym_conn(vc, "ctx")
+    # SNI selection for new connections is not part of this property (C15/C16); concrete values keep the path count down
+    stream = mk_plain_layer(vc, HS, None, stream_id=1)
+    other_stream = mk_plain_layer(vc, HS, None, stream_id=3)
+    # registry invariant R: connections registered by get_connection map to a layer stack whose own server connection
+    # (context.server, where its HTTP client writes) is the key. Entries registered for tunnel connections (OpenConnection
+    # passing through event_to_child, e.g. the TCP connection to an upstream proxy) map to the stack of the *tunnelled*
+    # connection instead: c1_tunnel.
+    inner, _ = sym_conn(vc, "inner")
+    h1 = mk_plain_layer(vc, H + ":HttpClient", mk_context(vc, client, inner if c1_tunnel else c1), tag="c1-handler")
+    hsrv = mk_plain_layer(vc, H + "._http1:Http1Server", None)
+    hx = mk_plain_layer(vc, H + ":HttpClient", mk_context(vc, client, xs_conn), tag="ctx-handler")
+    earlier = mk_cmd(vc, s1)  # invariant W: whatever waits on c1 matches c1
+    conns = [(client, hsrv), (c1, h1)] + ([(xs_conn, hx)] if ctx_registered else [])
+    waiting = [(c1, [earlier])] if c1_waiting else []
+    sources = [(ev, stream)] + ([(earlier, other_stream)] if c1_waiting else [])
+    layer = mk_http_layer(vc, mode, client, xs_conn, conns, waiting, sources)
+    made = []
+    install_constructor_summaries(vc, made)
+    vc.summary(HL + ".event_to_child", to_child_summary)
+    pre_keys = [k for k, _ in conns]
+    out = vc.call(HL + ".get_connection", layer, ev)
+    vc.ensure("no_exception", out.ok)
+    if not out.ok:
+        return
+    tr = out.trace
+    vc.ensure("trace.at_most_one_child_event", len(tr) <= 1 and all(is_ghost(c, "to_child") for c in tr))
+    if len(tr) != 1 or not is_ghost(tr[0], "to_child"):
+        # joined a pending connection: nothing is sent anywhere
+        w = dict_lookup(vc, layer.waiting_for_establishment, c1)
+        vc.ensure("wait.only_possible_on_pending_c1", c1_waiting and w is not None)
+        if w is None:
+            return
+        wl = list_items(vc, w)
+        vc.ensure("wait.appended_once_at_end", len(wl) == 2 and wl[0] is earlier and wl[1] is ev)
+        vc.ensure("wait.W_preserved.matches_pending_connection", spec_eq(vc, es, conn_spec(c1)))
+        vc.ensure("wait.command_source_kept", dict_lookup(vc, layer.command_sources, ev) is stream)
+        vc.ensure("wait.no_new_connection", [k for k, _ in dict_items(vc, layer.connections)] == pre_keys and made == [])
+        return
+    child, event = tr[0][1], tr[0][2]
+    if isa(event, _cls(H + ":GetHttpConnectionCompleted")):
+        vc.ensure("reply.to_requesting_stream", child is stream and event.command is ev)
+        vc.ensure("reply.command_source_consumed", dict_lookup(vc, layer.command_sources, ev) is None)
+        vc.ensure("reply.no_new_connection", [k for k, _ in dict_items(vc, layer.connections)] == pre_keys and made == [])
+        vc.ensure("reply.waiting_untouched", (len(dict_items(vc, layer.waiting_for_establishment)) == (1 if c1_waiting else 0)))
+        conn, err = event.reply[0], event.reply[1]
+        if isnone(conn):
+            # refused: only because a matching connection carries an error (failed connections are not retried/reused)
+            vc.ensure("refuse.error_reported", Not(isnone(err)))
+            src = c1 if (err is c1.error or (vc.mode == "sym" and _same_term(err, c1.error))) else xs_conn
+            vc.ensure("refuse.matching_failed_connection", Or(And(spec_eq(vc, es, conn_spec(c1)), tr_(vc, c1.error), vc.eq(err, c1.error)),
+                                                               And(spec_eq(vc, es, conn_spec(xs_conn)), tr_(vc, xs_conn.error), vc.eq(err, xs_conn.error))))
+        else:
+            vc.ensure("reuse.no_error_value", isnone(err))
+            vc.ensure("reuse.is_registered_connection", conn is c1 or (conn is xs_conn and ctx_registered))
+            vc.ensure("reuse.address", vc.eq(conn.address, es[0]))
+            vc.ensure("reuse.tls", vc.eq(conn.tls, es[1]))
+            vc.ensure("reuse.via", vc.eq(conn.via, es[2]))
+            vc.ensure("reuse.transport", vc.eq(conn.transport_protocol, es[3]))
+            vc.ensure("reuse.connected", conn.state == S.OPEN)
+            vc.ensure("reuse.not_failed", Not(tr_(vc, conn.error)))
+            vc.ensure("reuse.not_pending", dict_lookup(vc, layer.waiting_for_establishment, conn) is None)
+            # the request will be written by the HTTP client at the bottom of the registered stack: it must write to `conn`
+            vc.ensure_kf("reuse.handler_writes_to_this_connection", dict_lookup(vc, layer.connections, conn).context.server is conn,
+                         "KF-C08-1", c1_tunnel and conn is c1)
+        return
+    # a new upstream connection attempt is started
+    vc.ensure("new.start_event", isa(event, _cls("mitmproxy.proxy.events:Start")))
+    post = dict_items(vc, layer.connections)
+    added = [(k, v) for k, v in post if not any(k is p for p in pre_keys)]
+    use_ctx = (not ctx_registered) and len(added) == 1 and added[0][0] is xs_conn
+    vc.ensure("new.exactly_one_registered", len(added) == 1 and [k for k, _ in post][:len(pre_keys)] == pre_keys)
+    if len(added) != 1:
+        return
+    nc, handler = added[0]
+    vc.ensure("new.started_layer_is_registered_handler", child is handler)
+    w = dict_lookup(vc, layer.waiting_for_establishment, nc)
+    vc.ensure("new.waiting_is_exactly_this_request", w is not None and [x for x in list_items(vc, w)] == [ev] if w is not None else False)
+    vc.ensure("new.command_source_kept", dict_lookup(vc, layer.command_sources, ev) is stream)
+    vc.ensure("new.W.address", vc.eq(nc.address, es[0]))
+    vc.ensure("new.W.tls", vc.eq(nc.tls, es[1]))
+    vc.ensure("new.W.via", vc.eq(nc.via, es[2]))
+    vc.ensure("new.W.transport", vc.eq(nc.transport_protocol, es[3]))
+    vc.ensure("new.not_failed", Not(tr_(vc, nc.error)))
+    if use_ctx:
+        vc.ensure("new.ctx.only_if_connected", nc.state == S.OPEN)
+        vc.ensure("new.ctx.no_tunnel_layers", [m[0] for m in made] == ["httpclient"])
+    else:
+        vc.ensure("new.fresh_object", nc is not c1 and nc is not xs_conn and nc is not client)
+        vc.ensure("new.fresh_is_closed", nc.state == S.CLOSED)
+        kinds = [m[0] for m in made]
+        has_via = Not(isnone(es[2]))
+        vc.ensure("new.upstream_layer_iff_via", Iff(has_via, "upstream" in kinds))
+        vc.ensure("new.tls_layer_iff_tls", Iff(es[1], "tls" in kinds or "quic" in kinds))
+        vc.ensure("new.tls_kind_by_transport", And(Implies("tls" in kinds, es[3] == "tcp"), Implies("quic" in kinds, es[3] == "udp")))
+        vc.ensure("new.layers_on_new_connection", all(m[2] is nc for m in made))
+        vc.ensure("new.order_upstream_tls_http", kinds == [k for k in ["upstream", "tls", "quic", "httpclient"] if k in kinds] and kinds[-1] == "httpclient")
+        vc.ensure("new.handler_is_outermost", handler is made[0][1])
+    vc.ensure("new.R.handler_writes_to_new_connection", made[-1][0] == "httpclient" and made[-1][1].context.server is nc and handler.context.server is nc)
+    vc.ensure("frame.existing_connections_untouched", And(spec_eq(vc, conn_spec(c1), s1), Implies(use_ctx or True, spec_eq(vc, conn_spec(xs_conn), xs))))
+
+
+def _mk_gc(mode_name, c1_waiting, ctx_registered):
+    @scenario(f"get_connection.{mode_name}.{'pending' if c1_waiting else 'settled'}.{'ctxreg' if ctx_registered else 'ctxfree'}",
+              functions=[HL + ".get_connection", G + ".connection_spec_matches"], asserts_are_obligations=True, max_paths=6000)
+    def s(vc):
+        _get_connection_contract(vc, mode_name, c1_waiting, ctx_registered)
+    return s
+
+
+for _m in ("regular", "transparent", "upstream"):
+    for _w in (False, True):
+        for _r in (False, True):
+            _mk_gc(_m, _w, _r)
+
+
+@scenario("get_connection.regular.settled.ctxfree.tunnel_entry", functions=[HL + ".get_connection"], asserts_are_obligations=True, max_paths=6000)
+def s_gc_tunnel(vc):
+    _get_connection_contract(vc, "regular", False, False, c1_tunnel=True)
+
+
+@scenario("register_connection", functions=[HL + ".register_connection"], asserts_are_obligations=True)
+def s_register(vc):
+    from mitmproxy.connection import ConnectionState as S
+    from mitmproxy.proxy.layers.http import HTTPMode
+    n = vc.case("waiting", [1, 2, 3])
+    failed = vc.case("failed", [False, True])
+    client = mk_client(vc, alpn=vc.opt("client_alpn", If(vc.sym_bool("client_h2"), b"h2", b"http/1.1")))
+    c, cs = sym_conn(vc, "c", state=S.CLOSED if failed else S.OPEN)
+    other, _ = sym_conn(vc, "other")
+    cmds = [mk_cmd(vc, cs) for _ in range(n)]          # invariant W: every command waiting on c matches c
+    ocmd = mk_cmd(vc, conn_spec(other))
+    streams = [mk_plain_layer(vc, HS, None, stream_id=2 * i + 1) for i in range(n)]
+    ostream = mk_plain_layer(vc, HS, None, stream_id=99)
+    hsrv = mk_plain_layer(vc, H + "._http1:Http1Server", None)
+    hc = mk_plain_layer(vc, H + ":HttpClient", mk_context(vc, client, c))
+    ho = mk_plain_layer(vc, H + ":HttpClient", mk_context(vc, client, other))
+    layer = mk_http_layer(vc, HTTPMode.regular, client, mk_server(vc, "ctxsrv", address=None), [(client, hsrv), (c, hc), (other, ho)],
+                          [(other, [ocmd]), (c, cmds)], list(zip(cmds, streams)) + [(ocmd, ostream)])
+    errmsg = vc.sym_str("err")
+    if failed:
+        vc.assume(len_(errmsg) > 0)
+    reg = vc.new(H + ":RegisterHttpConnection", connection=c, err=errmsg if failed else None, blocking=False)
+    redisp = []
+
+    def get_conn_summary(v, self_, event, reuse=True):
+        redisp.append((event, reuse))
+        return v.gen([v.ghost("get_connection", event, reuse)])
+
+    vc.summary(HL + ".event_to_child", to_child_summary)
+    vc.summary(HL + ".get_connection", get_conn_summary)
+    out = vc.call(HL + ".register_connection", layer, reg)
+    vc.ensure("no_exception", out.ok)
+    if not out.ok:
+        return
+    tr = out.trace
+    replies = [(t[1], t[2]) for t in tr if is_ghost(t, "to_child")]
+    vc.ensure("trace.only_replies_and_redispatch", all(is_ghost(t, "to_child") or is_ghost(t, "get_connection") for t in tr))
+    vc.ensure("waiting.entry_removed", dict_lookup(vc, layer.waiting_for_establishment, c) is None)
+    ow = dict_lookup(vc, layer.waiting_for_establishment, other)
+    vc.ensure("frame.other_waiters_untouched", ow is not None and list_items(vc, ow) == [ocmd] and dict_lookup(vc, layer.command_sources, ocmd) is ostream)
+    h2_to_h1 = (not failed) and vc.branch(And(Not(isnone(client.alpn)), vc.eq(client.alpn, b"h2"), Not(vc.eq(c.alpn, b"h2"))))
+    k = 1 if h2_to_h1 else n
+    vc.ensure("replies.count", len(replies) == k)
+    if len(replies) != k:
+        return
+    for i in range(k):
+        child, ev = replies[i]
+        vc.ensure(f"reply[{i}].to_the_stream_that_asked_in_order", child is streams[i] and isa(ev, _cls(H + ":GetHttpConnectionCompleted")) and ev.command is cmds[i])
+        vc.ensure(f"reply[{i}].source_consumed", dict_lookup(vc, layer.command_sources, cmds[i]) is None)
+        if failed:
+            vc.ensure(f"reply[{i}].error_no_connection", And(isnone(ev.reply[0]), vc.eq(ev.reply[1], errmsg)))
+        else:
+            vc.ensure(f"reply[{i}].is_registered_connection", ev.reply[0] is c and isnone(ev.reply[1]))
+            vc.ensure(f"reply[{i}].matches_request", spec_eq(vc, conn_spec(ev.reply[0]), (cmds[i].address, cmds[i].tls, cmds[i].via, cmds[i].transport_protocol)))
+    if h2_to_h1:
+        # HTTP/2 client, HTTP/1 upstream: one request per upstream connection; the others get their own new connection
+        vc.ensure("h2h1.rest_redispatched_once_each_without_reuse", len(redisp) == n - 1 and all(e is cmds[i + 1] and vc.eq(r, False) is not False for i, (e, r) in enumerate(redisp)))
+        vc.ensure("h2h1.rest_not_answered_here", all(dict_lookup(vc, layer.command_sources, cmds[i]) is streams[i] for i in range(1, n)))
+    else:
+        vc.ensure("no_redispatch", redisp == [])
+
+
+@scenario("make_server_connection", functions=[HS + ".make_server_connection"], asserts_are_obligations=True)
+def s_make_server_connection(vc):
+    fails = vc.case("connect", ["ok", "error"]) == "error"
+    client = mk_client(vc)
+    cur, cur_spec = sym_conn(vc, "cur")
+    host, port = vc.sym_str("req_host"), vc.sym_int("req_port", lo=0, hi=65535)
+    scheme = vc.case("scheme", [b"http", b"https", b"", b"HTTPS", b"ws"])
+    headers = vc.new("mitmproxy.http:Headers", fields=())
+    data = vc.new("mitmproxy.http:RequestData", host=host, port=port, method=b"GET", scheme=scheme, authority=b"", path=b"/", http_version=b"HTTP/1.1",
+                  headers=headers, content=b"", trailers=None, timestamp_start=1.0, timestamp_end=2.0)
+    req = vc.new("mitmproxy.http:Request", data=data)
+    flow = vc.new("mitmproxy.http:HTTPFlow", client_conn=client, server_conn=cur, request=req, response=None, error=None, live=True, websocket=None,
+                  id="flow-id", intercepted=False, marked="", is_replay=None, metadata=vc.dict([]), comment="", timestamp_created=1.0, _backup=None)
+    # an addon may have replaced flow.server_conn (documented way to change the upstream proxy per request): the stream's
+    # context still holds the original connection object, the destination must come from the flow
+    ctxs, _ = sym_conn(vc, "ctxs")
+    ctx = mk_context(vc, client, ctxs)
+    stream = mk_plain_layer(vc, HS, ctx, flow=flow, stream_id=5)
+    newconn, _ = sym_conn(vc, "granted")
+    errmsg = vc.sym_str("err")
+    vc.assume(len_(errmsg) > 0)
+    asked = []
+
+    def on_yield(cmd):
+        if is_cmd(cmd, "GetHttpConnection"):
+            asked.append((cmd, cmd.address, cmd.tls, cmd.via, cmd.transport_protocol))
+            return (None, errmsg) if fails else (newconn, None)
+
+    perr = []
+
+    def protocol_error_summary(v, self_, event):
+        perr.append(event)
+        return v.gen([v.ghost("protocol_error", event)])
+
+    vc.summary(HS + ".handle_protocol_error", protocol_error_summary)
+    out = vc.call(HS + ".make_server_connection", stream, on_yield=on_yield)
+    vc.ensure("no_exception", out.ok)
+    if not out.ok:
+        return
+    vc.ensure("asks_exactly_once", len(asked) == 1)
+    if len(asked) != 1:
+        return
+    cmd, a, t, v, tp = asked[0]
+    vc.ensure("asks.address_is_request_host_port", And(a[0] == host, a[1] == port) if len(a) == 2 else False)
+    vc.ensure("asks.tls_iff_scheme_https", Iff(tr(vc, t), scheme == b"https"))
+    vc.ensure("asks.via_of_flow_connection", vc.eq(v, cur_spec[2]))
+    vc.ensure("asks.transport_of_flow_connection", vc.eq(tp, cur_spec[3]))
+    if fails:
+        vc.ensure("error.returns_false", vc.eq(out.result, False))
+        vc.ensure("error.reported_once_as_connect_failure", And(vc.eq(perr[0].stream_id, 5), vc.eq(perr[0].message, errmsg), isa(perr[0], _cls(H + ":ResponseProtocolError"))) if len(perr) == 1 else False)
+        vc.ensure("error.flow_connection_unchanged", flow.server_conn is cur and stream.context.server is ctxs)
+    else:
+        vc.ensure("ok.returns_true", vc.eq(out.result, True))
+        vc.ensure("ok.flow_and_context_use_granted_connection", flow.server_conn is newconn and stream.context.server is newconn)
+        vc.ensure("ok.no_error_reported", perr == [])
+
+
+def tr_(vc, x):
+    """truthiness of an optional string in both modes"""
+    if vc.mode == "sym":
+        if isinstance(x, SUnion):
+            import z3
+            return SBool(z3.Or(*[z3.And(c, truth(v).t) for c, v in x.alts]))
+        return truth(x)
+    return bool(x)
+
+
+def _same_term(a, b):
+    return a is b
 
 
 # =============================================================================================
